@@ -242,6 +242,11 @@ func (v *collator_[V]) compareValues(first ref.Value, second ref.Value) bool {
 		// The values have different types.
 		return false
 	}
+	if first.Kind() != ref.Interface && second.Kind() != ref.Interface &&
+		(first.Kind() == ref.Pointer) != (second.Kind() == ref.Pointer) {
+		// A pointer and a value have different types too.
+		return false
+	}
 
 	// We now know that the types of the values are the same, and neither of
 	// the values is invalid.
@@ -693,6 +698,11 @@ func (v *collator_[V]) rankValues(first ref.Value, second ref.Value) Rank {
 	if firstType != secondType && firstType != "any" && secondType != "any" {
 		// The values have different types.
 		return v.rankStrings(firstType, secondType)
+	}
+	if first.Kind() != ref.Interface && second.Kind() != ref.Interface &&
+		(first.Kind() == ref.Pointer) != (second.Kind() == ref.Pointer) {
+		// A pointer and a value have different types too.
+		return v.rankStrings(first.Type().String(), second.Type().String())
 	}
 
 	// We now know that the types of the values are the same, and neither of
